@@ -239,6 +239,12 @@ func (g *Gen) scalar() *Scalar {
 	}
 }
 
+// ImplicitTypes: the well-known types that can be referred to without an import (imports.go
+// implicitImports); two of them are also the types of the implicit leading fields of topic messages.
+var ImplicitTypes = [][2]string{{"j5.list.v1", "PageRequest"}, {"j5.list.v1", "PageResponse"}, {"j5.list.v1", "QueryRequest"},
+	{"j5.state.v1", "StateMetadata"}, {"j5.state.v1", "EventMetadata"}, {"j5.state.v1", "EventPublishMetadata"},
+	{"j5.messaging.v1", "UpsertMetadata"}, {"j5.messaging.v1", "RequestMetadata"}}
+
 // pickRef chooses a declared type of the wanted kind that the current file may refer to.
 func (g *Gen) pickRef(kind string) *Ref {
 	if !g.Cfg.Refs {
@@ -263,8 +269,7 @@ func (g *Gen) pickRef(kind string) *Ref {
 		}
 	}
 	if kind == "object" && g.R.Chance(6) { // implicitly importable well-known types
-		w := vh.Pick(g.R, [][2]string{{"j5.list.v1", "PageRequest"}, {"j5.list.v1", "PageResponse"}, {"j5.list.v1", "QueryRequest"},
-			{"j5.state.v1", "StateMetadata"}, {"j5.state.v1", "EventMetadata"}, {"j5.messaging.v1", "UpsertMetadata"}})
+		w := vh.Pick(g.R, ImplicitTypes)
 		g.Stats["ref_implicit"]++
 		if g.R.Chance(30) {
 			spec := g.importSpec(w[0], "")
@@ -566,7 +571,7 @@ func (g *Gen) service() *Service {
 	s := &Service{Name: name}
 	shared := "" // request field named by a parameter of the base path
 	if g.R.Chance(70) {
-		base := vh.Pick(g.R, []string{"/foo/v1", "/foo/v1/", "/" + strings.ToLower(name), "/a/b/c", "/", "/x//y", "/v1/./z", "rel/base"})
+		base := vh.Pick(g.R, []string{"/foo/v1", "/foo/v1/", "/" + strings.ToLower(name), "/a/b/c", "/", "/x//y", "/v1/./z", "rel/base", "/a/../b/c", "/.."})
 		if g.R.Chance(35) {
 			shared = vh.Pick(g.R, []string{"tenantId", "accountID", "org_id", "fooBarId", "x1"})
 			base = vh.Pick(g.R, []string{"/local/v1/tenant/:" + shared + "/foo", "/:" + shared, "/v1/:" + shared + "/", "t/:" + shared + "/x"})
@@ -660,8 +665,18 @@ func (g *Gen) topic() *Topic {
 			}
 			st.topSyms[strcase.ToCamel(name+"Request")+"Topic"] = true
 			st.topSyms[strcase.ToCamel(name+"Reply")+"Topic"] = true
-			t.Req = []*Tmsg{g.tmsg(false, st.topSyms, name+"Request")}
-			t.Reply = []*Tmsg{g.tmsg(false, st.topSyms, name+"Reply")}
+			if g.R.Chance(25) { // several named request / reply messages
+				for i := g.R.Range(2, 3); i > 0; i-- {
+					t.Req = append(t.Req, g.tmsg(true, st.topSyms, ""))
+				}
+				for i := g.R.Range(1, 2); i > 0; i-- {
+					t.Reply = append(t.Reply, g.tmsg(true, st.topSyms, ""))
+				}
+				g.Stats["topic_reqres_multi"]++
+			} else {
+				t.Req = []*Tmsg{g.tmsg(g.R.Chance(30), st.topSyms, name+"Request")}
+				t.Reply = []*Tmsg{g.tmsg(g.R.Chance(30), st.topSyms, name+"Reply")}
+			}
 		default:
 			named := g.R.Chance(50)
 			if st.topSyms[svc] || (!named && st.topSyms[name+"Message"]) {
@@ -678,7 +693,9 @@ func (g *Gen) topic() *Topic {
 	return nil
 }
 
-var pkgRoots = [][]string{{"foo", "v1"}, {"foo", "bar", "v1"}, {"acme", "baz", "v2"}, {"zed", "v1"}, {"acme", "users", "v1"}, {"lib", "common", "v3"}}
+// package directories: two to four name parts, and two that lie below the directory of another one
+var pkgRoots = [][]string{{"foo", "v1"}, {"foo", "bar", "v1"}, {"acme", "baz", "v2"}, {"zed", "v1"}, {"acme", "users", "v1"}, {"lib", "common", "v3"},
+	{"foo", "v1", "inner", "v1"}, {"acme", "baz", "v2", "ext", "v1"}, {"acme", "billing", "invoice", "v1"}}
 
 // Bundle generates a whole bundle; the returned package is the one to compile
 // (the last one: it may refer to all the others).
